@@ -82,7 +82,7 @@ func (x *differ) msg(root *sRoot, a, b protoreflect.Message, path string) {
 	for i := 0; i < fds.Len(); i++ {
 		fd := fds.Get(i)
 		ha, hb := a.Has(fd), b.Has(fd)
-		p := path + "." + string(fd.Name())
+		p := subPath(path, "."+string(fd.Name()))
 		if flat[fd.FullName()] {
 			// empty flattened sub-object == absent
 			if ha && emptyDeepFlat(x, a.Get(fd).Message()) {
@@ -125,7 +125,7 @@ func (x *differ) msg(root *sRoot, a, b protoreflect.Message, path string) {
 				return
 			}
 			for k := 0; k < la.Len(); k++ {
-				x.single(fd, la.Get(k), lb.Get(k), fmt.Sprintf("%s[%d]", p, k))
+				x.single(fd, la.Get(k), lb.Get(k), subPath(p, fmt.Sprintf("[%d]", k)))
 			}
 		default:
 			x.single(fd, va, vb, p)
@@ -250,5 +250,5 @@ func (x *differ) any(fd protoreflect.FieldDescriptor, a, b protoreflect.Message,
 		x.report(kindOfFd(fd), path, "inner message not recoverable: %s / %s", ea, eb)
 		return
 	}
-	x.msg(x.rootOfMessage(ia.Descriptor()), ia, ib, path+".<any>")
+	x.msg(x.rootOfMessage(ia.Descriptor()), ia, ib, subPath(path, ".<any>"))
 }
